@@ -701,3 +701,57 @@ Proof.
   - destruct (c_auth r && (0 <? c_cid r)); unfold with_idx, with_reg; proj; apply closed_unregister.
   - destruct (c_auth r && (0 <? c_cid r)); unfold with_idx, with_reg; proj; apply sess_unregister.
 Qed.
+
+(* ---- the stale sweep never un-indexes a fresh connection ---- *)
+Lemma unindex_keeps c' r' i x c : get x i = Some c -> c <> c' -> get x (unindex c' r' i) = Some c.
+Proof.
+  intros Hx Hne. unfold unindex. destruct (c_auth r' && (0 <? c_cid r')); [|exact Hx].
+  destruct (get (c_cid r') i) as [c2|] eqn:E; [|exact Hx]. destruct (c2 =? c') eqn:E2; [|exact Hx].
+  apply N.eqb_eq in E2. subst c2.
+  assert (Hk : x <> c_cid r') by (intros ->; rewrite E in Hx; injection Hx as Hx; congruence).
+  rewrite get_del_other by exact Hk. exact Hx.
+Qed.
+
+Lemma idx_registry_remove_none c s : get c (reg s) = None -> idx (registry_remove c s) = idx s.
+Proof. intros H. unfold registry_remove. rewrite H. reflexivity. Qed.
+
+Lemma idx_sweep_one s c r : idx (sweep_one s (c, r)) = unindex c r (idx s).
+Proof.
+  unfold sweep_one, with_closed. proj. unfold close_conn. rewrite idx_tunnel_remove.
+  set (s1 := with_reg (with_idx s (unindex c r (idx s))) (del c (reg s))).
+  assert (Hn : get c (reg (if mem c (sess s1) then with_closed (with_sess s1 (rem c (sess s1))) (add c (closed s1)) else s1)) = None).
+  { destruct (mem c (sess s1)); unfold s1, with_closed, with_sess, with_reg, with_idx; proj; apply get_del_same. }
+  rewrite (idx_registry_remove_none _ _ Hn). destruct (mem c (sess s1)); reflexivity.
+Qed.
+
+Lemma sweep_fold_keeps x c l : forall s, get x (idx s) = Some c -> (forall e, In e l -> fst e <> c) ->
+  get x (idx (fold_left sweep_one l s)) = Some c.
+Proof.
+  induction l as [|[c' r'] t IH]; cbn [fold_left]; intros s Hx Hne; [exact Hx|].
+  apply IH.
+  - rewrite idx_sweep_one. apply unindex_keeps; [exact Hx|]. intros Heq. apply (Hne (c', r')); [left; reflexivity|]. cbn [fst]. congruence.
+  - intros e He. apply Hne. right. exact He.
+Qed.
+
+Lemma sweep_fold_keeps_reg c l : forall s r2, (forall e, In e l -> fst e <> c) -> get c (reg s) = Some r2 ->
+  get c (reg (fold_left sweep_one l s)) = Some r2.
+Proof.
+  induction l as [|[c3 r3] t IH]; cbn [fold_left]; intros s r2 Hne E2; [exact E2|].
+  assert (H3 : c <> c3) by (intros ->; apply (Hne (c3, r3)); [left; reflexivity|reflexivity]).
+  apply IH; [intros e He; apply Hne; right; exact He|].
+  rewrite reg_sweep_one, !get_del_other by exact H3. exact E2.
+Qed.
+
+(* a registered connection whose last activity is within the heartbeat timeout and which is the indexed connection of its client
+   is still registered and still the answer for that client after the sweep — whatever else the sweep removes (e.g. a stale record
+   authenticated as the same client that was never indexed) *)
+Theorem sweep_keeps_fresh k s x c r : Inv s ->
+  by_client s x = Some c -> by_conn s c = Some r -> is_stale k s r = false ->
+  by_client (fst (sweep k s)) x = Some c /\ by_conn (fst (sweep k s)) c = Some r.
+Proof.
+  intros Hinv Hx Hc Hfresh. unfold by_client, by_conn, sweep in *. cbn [fst].
+  assert (Hne : forall e, In e (stale_entries k s) -> fst e <> c).
+  { intros [c' r'] He Heq. cbn [fst] in Heq. subst c'. unfold stale_entries in He. apply filter_In in He. destruct He as [He Hs].
+    cbn [snd] in Hs. apply (in_get_some c r' (reg s) (inv_nd_reg _ Hinv)) in He. rewrite Hc in He. injection He as <-. congruence. }
+  split; [apply sweep_fold_keeps; assumption|apply sweep_fold_keeps_reg; assumption].
+Qed.
